@@ -18,6 +18,107 @@ from report import RuleResult
 HERE = os.path.dirname(os.path.abspath(__file__))
 
 
+def _disjuncts(F, body, want, depth=0):
+    """number of distinct ways a small bool body returns `want`: branch edges into blocks that store the constant, plus one per
+    non-constant tail (`.. || last()`), recursively through predicate closures.  A condition keeps its weight when it is
+    moved from an `if a || b || c` into `let bad = |x| a || b || c` or `(0..n).any(|i| ..)`."""
+    if body is None or depth > 3 or (body.lty(0) or {}).get("s") != "bool" or len(body.blocks) > 60:
+        return 1
+    from cfg import Defs
+    preds = body.preds()
+    n = 0
+    for bi, blk in enumerate(body.blocks):
+        if blk.get("cleanup"):
+            continue
+        for st in blk["stmts"]:
+            if st["place"]["l"] != 0 or st["place"]["p"]:
+                continue
+            rv = st["rv"]
+            if rv["k"] == "use" and rv["op"].get("k") == "const":
+                if str(rv["op"].get("text")) == ("true" if want else "false"):
+                    # edges into this block, looking through empty goto blocks
+                    work, seen, cnt = [bi], set(), 0
+                    while work:
+                        x = work.pop()
+                        if x in seen:
+                            continue
+                        seen.add(x)
+                        for p in preds[x]:
+                            pb = body.blocks[p]
+                            if pb.get("cleanup"):
+                                continue
+                            if pb["term"]["k"] == "goto" and not pb["stmts"]:
+                                work.append(p)
+                            else:
+                                cnt += 1
+                    n += max(cnt, 1)
+            else:
+                n += 1
+        t = blk["term"]
+        if t["k"] == "call" and t["dest"]["l"] == 0 and not t["dest"]["p"]:
+            n += _call_weight(F, body, t, want, depth + 1)
+    return max(n, 1)
+
+
+def _call_weight(F, b, t, want, depth=0):
+    import boolsum
+    name = callee(t)[2]
+    if name in ("call", "call_mut", "call_once") and t["args"]:
+        return _disjuncts(F, F.body(boolsum.closure_def_of_type(b.opty(t["args"][0])) or ""), want, depth)
+    if name in ("any", "find", "position") and len(t["args"]) == 2:
+        return _disjuncts(F, F.body(boolsum.closure_def_of_type(b.opty(t["args"][1])) or ""), want, depth)
+    if name == "all" and len(t["args"]) == 2:
+        return _disjuncts(F, F.body(boolsum.closure_def_of_type(b.opty(t["args"][1])) or ""), not want, depth)
+    cb = F.callee_body(t)
+    if cb is not None and (cb.lty(0) or {}).get("s") == "bool" and not cb.path.startswith(("std::", "core::", "ndarray::")):
+        return _disjuncts(F, cb, want, depth)
+    return 1
+
+
+def _edge_weight(F, b, p, e):
+    """weight of the branch edge p -> e: 1, or — when the branch tests the result of a predicate closure / bool helper /
+    any / all / find over a predicate — the number of ways that predicate produces the value that takes this edge"""
+    from cfg import Defs
+    t = b.blocks[p]["term"]
+    if t["k"] != "switch" or t["op"].get("k") not in ("copy", "move"):
+        return 1
+    tg = dict((v, x) for v, x in t["targets"])
+    if tg.get("0") == e and t["otherwise"] != e:
+        want = False
+    elif t["otherwise"] == e or tg.get("1") == e:
+        want = True
+    else:
+        return 1
+    defs = _DEFS.get(id(b))
+    if defs is None:
+        defs = _DEFS[id(b)] = Defs(b)
+    l = t["op"]["place"]["l"]
+    for _ in range(5):
+        ds = defs.of(l)
+        if len(ds) != 1:
+            return 1
+        d = ds[0]
+        if d[0] == "call":
+            nm = callee(d[2])[2]
+            if nm in ("find", "position"):
+                return _call_weight(F, b, d[2], True) if want else 1
+            return _call_weight(F, b, d[2], want)
+        rv = d[4]
+        if rv["k"] == "unop" and rv["op"] == "Not" and rv["a"].get("k") in ("copy", "move"):
+            want = not want
+            l = rv["a"]["place"]["l"]
+        elif rv["k"] in ("use",) and rv["op"].get("k") in ("copy", "move"):
+            l = rv["op"]["place"]["l"]
+        elif rv["k"] == "discr":
+            l = rv["place"]["l"]
+        else:
+            return 1
+    return 1
+
+
+_DEFS = {}
+
+
 def census(F, scopes):
     out = defaultdict(list)
     for b in F.bodies:
@@ -56,7 +157,7 @@ def census(F, scopes):
                         break
                     e = p
                 entries = [p for p in preds[e] if not b.blocks[p].get("cleanup")]
-                n_edges = len(entries) if entries else 1
+                n_edges = sum(_edge_weight(F, b, p, e) for p in entries) if entries else 1
                 fn = b.path.split("::{closure")[0]
                 out[(fn, rv["kind"].get("variant"), tag)].append(dict(span=st.get("span", b.file_line()), edges=n_edges))
     return out
